@@ -736,7 +736,7 @@ def clean_cases(ctx, volume=1):
             ctx.count("stratum:exhaustive-small")
             yield variants_for(rng, g, plates, elim, full=False)
     # --- random larger ---------------------------------------------------------------------
-    n = (350 if not thorough else 6000) * volume
+    n = (1000 if not thorough else 15000) * volume
     made = 0
     while made < n:
         factors, sizes, plates = gen_random_graph(rng, ctx.tier)
